@@ -26,14 +26,16 @@ GEN_MODULES = []
 REQUIRED = ['codec_roundtrip', 'codec_reserialize_stable', 'to_from_dict_roundtrip', 'codec_rejects', 'codec_accepts', 'codec_save_ok_iff',
             'representable_serializable', 'codec_save_or_faithful', 'codec_faithful_iff_serializable', 'codec_set_reloads',
             'codec_reserved_key_reloads', 'codec_reserved_callable_reloads',
-            'blt_roundtrip', 'blt_written_string_uncut', 'blt_comment_start_examples', 'blt_parse_total',
-            'blt_parse_total_oneplus_partial', 'blt_parse_total_oneplus_witness', 'blt_loaded_indices_valid', 'blt_former_foreign_errors',
-            'Stv.stv_nicks_distinct', 'Stv.stv_nicks_nonempty', 'Stv.stv_roundtrip', 'Stv.stv_dump_refuses', 'Stv.stv_header_roundtrip',
-            'Stv.stv_parse_total', 'Stv.stv_former_foreign_errors', 'Stv.stv_end_and_empty_ballot_reload']
+            'blt_roundtrip', 'blt_dump_refuses_iff', 'blt_save_or_faithful', 'blt_written_string_uncut', 'blt_comment_start_examples',
+            'blt_parse_total', 'blt_oneplus_below_one', 'blt_repeated_ballot_exact', 'blt_loaded_indices_valid', 'blt_former_foreign_errors',
+            'Stv.stv_nicks_distinct', 'Stv.stv_nicks_nonempty', 'Stv.stv_roundtrip', 'Stv.stv_blt_mode_roundtrip', 'Stv.stv_dump_refuses',
+            'Stv.stv_dump_refuses_negative', 'Stv.stv_header_roundtrip', 'Stv.stv_parse_total', 'Stv.stv_loaded_indices_valid',
+            'Stv.stv_blt_mode_header_candidates', 'Stv.stv_repeated_ballot_exact', 'Stv.stv_former_foreign_errors',
+            'Stv.stv_end_and_empty_ballot_reload']
 REQUIRED_COUNTERS = ['codec_frac', 'codec_dec', 'codec_tuple', 'codec_fset', 'codec_sdict', 'codec_gdict', 'codec_obj', 'codec_callable',
                      'codec_depth_4', 'unrepresentable', 'codec_plain_set', 'codec_reserved_key', 'codec_equal_values_different_types',
                      'codec_same_name_two_registries', 'codec_wide',
-                     'class_rt', 'class_bad', 'class_signatures', 'class_sensitive', 'class_same_name_two_registries',
+                     'class_rt', 'class_bad', 'class_signatures', 'class_sensitive', 'class_same_name_two_registries', 'class_identity_keys',
                      'class_equal_values_different_types', 'sens_LargestRemainder_accept_equal',
                      'sens_LargestRemainder_on_overaward', 'sens_Coalition_lead', 'sens_ByConstituency_subsetter', 'sens_ByParty_subsetter',
                      'sens_UnusedVotesDistributor_depth', 'sens_TransferableVoteDistributor_mandatory_quota', 'cls_depth_4', 'feat_fraction', 'feat_decimal', 'feat_callable_by_name', 'feat_dict_keyed',
@@ -47,12 +49,12 @@ REQUIRED_COUNTERS = ['codec_frac', 'codec_dec', 'codec_tuple', 'codec_fset', 'co
                      'stv_title_none', 'stv_empty_ballot_w1', 'stv_nick_end', 'stv_name_no_initials', 'stv_decimal_exponent',
                      'stv_writer_must_refuse', 'stv_withdrawn', 'stv_weight_frac', 'stv_weight_dec',
                      'stv_text', 'mut_header_junk', 'stv_quota_registry', 'stv_header_directed',
-                     'structure_directed', 'class_directed', 'class_custom_inputs', 'codec_directed', 'text_variant_directed', 'blt_oneplus', 'blt_oneplus_directed', 'mut_crlf', 'mut_bom', 'mut_no_final_newline', 'blt_zero_ballots', 'blt_all_withdrawn', 'blt_27plus_candidates', 'blt_one_candidate', 'blt_cand_int', 'blt_cand_person', 'blt_cand_person_full', 'blt_cand_str', 'blt_names_differ_in_case_only', 'blt_names_differ_in_whitespace_only', 'blt_name_non_ascii', 'blt_title_non_ascii', 'blt_weight_zero_int', 'blt_weight_zero_dec', 'blt_weight_zero_frac', 'blt_weight_negative', 'blt_weight_huge_denominator', 'blt_weight_decimal_exponent', 'blt_weight_2_53_and_above', 'blt_weight_10_400', 'stv_zero_ballots', 'stv_all_withdrawn', 'stv_27plus_candidates', 'stv_one_candidate', 'stv_cand_int', 'stv_cand_person', 'stv_cand_person_full', 'stv_cand_str', 'stv_names_differ_in_case_only', 'stv_names_differ_in_whitespace_only', 'stv_name_non_ascii', 'stv_title_non_ascii', 'stv_weight_zero_int', 'stv_weight_zero_dec', 'stv_weight_zero_frac', 'stv_weight_negative', 'stv_weight_huge_denominator', 'stv_weight_decimal_exponent', 'stv_weight_2_53_and_above', 'stv_weight_10_400', 'blt_name_empty']
+                     'structure_directed', 'text_repeated_ballot', 'blt_text_repeated_decimal_weight', 'stv_text_repeated_decimal_weight', 'stv_text_blt_content', 'may_refuse_negative_weight', 'stv_blt_mode_with_header_candidates', 'class_directed', 'class_custom_inputs', 'codec_directed', 'text_variant_directed', 'blt_oneplus', 'blt_oneplus_directed', 'mut_crlf', 'mut_bom', 'mut_no_final_newline', 'blt_zero_ballots', 'blt_all_withdrawn', 'blt_27plus_candidates', 'blt_one_candidate', 'blt_cand_int', 'blt_cand_person', 'blt_cand_person_full', 'blt_cand_str', 'blt_names_differ_in_case_only', 'blt_names_differ_in_whitespace_only', 'blt_name_non_ascii', 'blt_title_non_ascii', 'blt_weight_zero_int', 'blt_weight_zero_dec', 'blt_weight_zero_frac', 'blt_weight_negative', 'blt_weight_huge_denominator', 'blt_weight_decimal_exponent', 'blt_weight_2_53_and_above', 'blt_weight_10_400', 'stv_zero_ballots', 'stv_all_withdrawn', 'stv_27plus_candidates', 'stv_one_candidate', 'stv_cand_int', 'stv_cand_person', 'stv_cand_person_full', 'stv_cand_str', 'stv_names_differ_in_case_only', 'stv_names_differ_in_whitespace_only', 'stv_name_non_ascii', 'stv_title_non_ascii', 'stv_weight_zero_int', 'stv_weight_zero_dec', 'stv_weight_zero_frac', 'stv_weight_negative', 'stv_weight_huge_denominator', 'stv_weight_decimal_exponent', 'stv_weight_2_53_and_above', 'stv_weight_10_400', 'blt_name_empty']
 RULE = ('codec: random value trees of depth <= 4 over atoms (None/bool/int up to 10^30/float/str incl. unicode and identifier-like), '
         'Fraction, Decimal, list, tuple, frozenset, str-keyed and general dicts, objects (Person, PoliticalParty, NoneOfTheAbove, '
         'AbsoluteThreshold) and callables by name; plus directed streams: an unrepresentable leaf (closure, lambda, same-named local def, '
         'functools.partial, quota.constant, object(), complex) wrapped at depth <= 3, plain sets, mappings with reserved keys. '
-        'class_rt: every class carrying to_dict found by reflection (each at least twice per run), constructor specs nested to depth 4, '
+        'class_rt: every class carrying to_dict found by reflection (each at least ten times per run as the top-level object), constructor specs nested to depth 4, '
         '6 generated inputs per object for the outcome comparison, and unrepresentable configurations. '
         'blt_rt / stv_rt: 0-6 candidates (strings or Person objects, rich printable names, duplicate names for Person), 0-6 ballots without '
         'shared ranks incl. the empty ballot, int / Decimal / Fraction weights, any subset withdrawn, optional title; STV with and without '
@@ -69,6 +71,11 @@ NOT_VERIFIED = ['lexing of BLT/STV text (split, str(weight), Decimal(text), str.
                 'are answered "unmodelled" and not compared',
                 'str.isidentifier is modelled for ASCII; str(Decimal)/Decimal(str) are the identity on the carried text',
                 'Python equality across numeric types inside sets / dict keys (1 == True == 1.0) — the generator keeps such keys apart',
+                'object identity: candidate objects hash by identity, so two keys of equal content stay two keys in Python while the model '
+                '(values compared by content; precondition WFval: distinct keys) would merge them — random generators give object keys '
+                'distinct names, the directed class_identity_keys cases check the Python side by the oracle only',
+                'the numeric TYPE of a loaded weight (int / Decimal / Fraction; a repeated ballot with a Decimal weight comes back as a '
+                'Fraction since 134a849): models and oracle compare loaded weights by exact value',
                 'the value algebra has exact builtin types only: an iterable that is not a list/tuple/set/frozenset (range, bytes, deque, subclasses) '
                 'is written as a list and a mapping that is not a dict (defaultdict, OrderedDict) as a dict — the codec theorems say nothing about '
                 'them; the one case that matters in votelib (validators holding a defaultdict) is the open finding validator_defaultdict',
@@ -81,12 +88,10 @@ NOT_VERIFIED = ['lexing of BLT/STV text (split, str(weight), Decimal(text), str.
                 'their isdecimal()/int() classification, names and title with the flag whether _header_text lets them through; math.log in '
                 'the ordinal nickname length is modelled as the least k >= 1 with 26^k >= n; the objects _create_evaluator builds are '
                 'summarised as (title, seats, quota, mandatory, tie-break) and compared with the loaded system through that summary only']
-UNPROVED = ['blt_parse_total for the reader option oneplus_weights=True (false of the current code: ValueError for a weight below 1; '
-            'blt_parse_total_oneplus_partial and the witness are proved; open finding C19-blt-oneplus-valueerror)',
-            'stv_roundtrip holds for systems of the shape VotingSystem?(FixedSeatCount?(TieBreaking?(TransferableVoteSelector))) only; other '
+UNPROVED = ['stv_roundtrip holds for systems of the shape VotingSystem?(FixedSeatCount?(TieBreaking?(TransferableVoteSelector))) only; other '
             'evaluator trees (which _dump_system silently writes partially or refuses) are covered by the correspondence of dumpSys, not by a theorem',
-            'stv_parse_total is stated up to the constructs outside the STV token model (BLT content inside STV, the ordered format order=): '
-            'for those the exception type is checked by the oracle only']
+            'stv_parse_total is stated up to the one construct outside the STV token model (the ordered format order=): '
+            'for it the exception type is checked by the oracle only']
 EXHAUSTIVE = {'thorough': True}
 
 # ------------------------------------------------------------------------------------------------ guards
@@ -349,6 +354,8 @@ def _oracle_class(case, obs):
 def _model_class(case):
     import votelib.persist as P
     import props.c19_classes as KL
+    if case.get('identity_keys'):
+        return None
     try:
         d = P.to_dict(KL.build(case['spec']))
         j = CC.j_of_py(d)
@@ -456,6 +463,12 @@ def _class_directed_specs():
                                                               quota_fraction=b, accept_equal=B(True))
     yield 'class_equal_values_different_types', O('votelib.component.rankscore.SequenceBased', sequence=L(*one[:4], I(0), Fr('0'), De('0')))
     yield 'class_equal_values_different_types', O(E + 'sequential.PreferenceAddition', coefficients=L(*one[:3]), split_equal_rankings=B(True))
+    for props in ({}, {'properties': {'t': 'dict', 'k': [], 'v': []}}):
+        twins = [O('votelib.candidate.PoliticalParty', name=S('E')), O('votelib.candidate.PoliticalParty', name=S('E'), **props)]
+        seats = {'t': 'dict', 'k': twins, 'v': [I(0), I(3)]}
+        yield 'class_identity_keys', O(E + 'core.PreApportioned', evaluator=O(E + 'core.ByConstituency', evaluator=O(
+            E + 'proportional.HighestAverages')), apportioner=seats)
+        yield 'class_identity_keys', O(E + 'proportional.BiproportionalEvaluator', apportioner=seats)
     yield 'class_equal_values_different_types', O(E + 'threshold.CoalitionMemberBracketer',
                                                   evaluators={'t': 'dict', 'k': [I(1), I(2)],
                                                               'v': [O(E + 'threshold.RelativeThreshold', threshold=Fr('1'), accept_equal=B(True)),
@@ -467,8 +480,11 @@ def _gen_class_directed(rng):
     import props.c19_classes as KL
     for tag, spec in _class_directed_specs():
         for seed in (rng.randint(0, 10 ** 6), rng.randint(0, 10 ** 6)):
-            yield {'op': 'class_rt', 'spec': spec, 'seed': seed, 'n_inputs': 8,
-                   '_tags': ['class_rt', 'class_directed', tag, 'cls_depth_%d' % min(KL.spec_depth(spec), 4)]}
+            c = {'op': 'class_rt', 'spec': spec, 'seed': seed, 'n_inputs': 8,
+                 '_tags': ['class_rt', 'class_directed', tag, 'cls_depth_%d' % min(KL.spec_depth(spec), 4)]}
+            if tag == 'class_identity_keys':
+                c['identity_keys'] = True       # two keys of equal content: outside the model's precondition (distinct keys)
+            yield c
 
 
 def _gen_class(rng, n, n_bad):
@@ -527,18 +543,16 @@ def _text_variants(text, base, loads, load, dump):
     return out
 
 
-def _haz_blt(case):
-    h = set()
-    for _, w in case['doc']['ballots']:
-        if IO.weight_py(w) < 0:
-            h.add('negative_weight')
-    return h
+def _may_refuse_blt(case):
+    """what the BLT form cannot carry: the writer may refuse it (NotSupportedInBLT), it must not alter it.  A negative ballot weight
+    would read as a withdrawn-candidates line.  (Not part of the signature: a wrong answer here is an ordinary violation.)"""
+    return {'negative_weight'} if any(IO.weight_py(w) < 0 for _, w in case['doc']['ballots']) else set()
 
 
 def _oracle_rt(case, obs, pre=''):
     exp = IO.expected_doc(case['doc'])
     if obs['dump'] != 'ok':
-        if obs['dump']['err'] == 'NotSupportedInFormat' and _haz_rt(case):
+        if obs['dump']['err'] == 'NotSupportedInFormat' and _may_refuse_rt(case):
             return []                    # refused at save: the honest answer for something the format cannot hold
         return [('dump_raises', obs['dump']['exc'])]
     if _is_err(obs['loaded']):
@@ -550,8 +564,8 @@ def _oracle_variants(obs):
     return [('variant_' + k, f'differs from loads(dumps(...)): {json.dumps(v, default=str)[:160]}') for k, v in sorted(obs.get('variants', {}).items())]
 
 
-def _haz_rt(case):
-    return _haz_blt(case) if case['op'] == 'blt_rt' else _haz_stv(case)
+def _may_refuse_rt(case):
+    return _may_refuse_blt(case) if case['op'] == 'blt_rt' else _may_refuse_stv(case)
 
 
 def _model_blt_rt(case):
@@ -563,7 +577,11 @@ def _model_blt_rt(case):
 
 def _compare_blt_rt(case, iobs, mobs):
     if iobs['dump'] != 'ok':
-        return f"dump: impl raises {iobs['dump']['exc']}"
+        if 'dump' in mobs and mobs['dump'].get('err') == iobs['dump']['err']:
+            return None                  # refused by both (NotSupportedInBLT)
+        return f"dump: impl raises {iobs['dump']['exc']}, model {json.dumps(mobs)[:120]}"
+    if 'dump' in mobs:
+        return f"dump: impl writes a file, model raises {mobs['dump']}"
     if iobs['lines'] is None:
         return None
     lines = iobs['lines']
@@ -662,8 +680,8 @@ def _tag_doc(c, pre):
             t.append(f'{pre}_name_{o}')
     for o in IO.quote_hash_order(d.get('title') or ''):
         t.append(f'{pre}_title_{o}')
-    for h in _haz_rt(c):
-        t.append('hazard_' + h)
+    for h in _may_refuse_rt(c):
+        t.append('may_refuse_' + h)
 
 
 def _gen_structure(op):
@@ -842,6 +860,11 @@ def _gen_blt_text(rng, n):
     for t in ('2 1\n0.5 1 0\n0\n', '2 1\n1 1 0\n1/2 2 0\n0\n', '2 1\n0 1 0\n0\n', '2 1\n1 1 0\n2.5 2 1 0\n0\n"A"\n"B"\n',
               '2 1\n0.5 1\n0\n', '2 1\n1 1 0\n0.999999999999 2 0\n'):
         yield {'op': 'blt_text', 'text': t, 'oneplus': True, '_tags': ['blt_text', 'blt_oneplus', 'blt_oneplus_directed'], '_origin': 'handmade'}
+    for t in ('2 1\n6 1 0\n1E-30 1 0\n0\n', '2 1\n1.5 1 0\n1/2 1 0\n0\n', '2 1\n1/2 1 0\n1.5 1 0\n2 1 0\n0\n', '2 1\n2 1 2 0\n3 1 2 0\n1/3 1 2 0\n0\n',
+              '3 1\n0.1 3 0\n0.2 3 0\n0.3 3 0\n1 1 0\n0\n', '2 1\n9007199254740993 1 0\n0.5 1 0\n0\n',
+              # Decimal + Decimal beyond the 28 digits of the context, in both orders of magnitude
+              '2 1\n6.5 1 0\n1E-30 1 0\n0\n', '2 1\n0.1 1 0\n1E+30 1 0\n0.2 1 0\n0\n', '2 1\n1E-30 2 1 0\n6.5 2 1 0\n1E-30 2 1 0\n0\n'):
+        yield {'op': 'blt_text', 'text': t, '_tags': ['blt_text', 'text_repeated_ballot'], '_origin': 'repeated_ballot'}
     for t in BLT_HANDMADE[4:12]:
         for kind, v in (('crlf', t.replace('\n', '\r\n')), ('bom', '\ufeff' + t), ('no_final_newline', t.rstrip('\n'))):
             yield {'op': 'blt_text', 'text': v, '_tags': ['blt_text', 'mut_' + kind, 'text_variant_directed'], '_origin': kind}
@@ -905,6 +928,10 @@ def _stv_summary(system):
             name = getattr(qf, '__name__', None)
             out['quota'] = {'name': name} if name in vq.QUOTAS and vq.QUOTAS[name] is qf else {'const': str(qf.quota)}
             out['mandatory'] = bool(ev._inner.mandatory_quota)
+            break
+        elif isinstance(ev, votelib.evaluate.UnknownEvaluator):        # method=blt
+            out['quota'] = 'unknown'
+            out['mandatory'] = False
             break
         else:
             return None
@@ -975,8 +1002,6 @@ def _haz_stv(case):
     it must not alter them"""
     doc, sysd = case['doc'], case.get('sys')
     h = set()
-    if any(IO.weight_py(w) < 0 for _, w in doc['ballots']):
-        h.add('negative_weight')
     if sysd is not None:
         for n, _, _ in doc['cands']:
             if not n.strip():
@@ -996,9 +1021,14 @@ def _haz_stv(case):
     return h
 
 
+def _may_refuse_stv(case):
+    """... and a negative ballot weight, in the own format ('-3X a b' is not a multiplier) as in BLT mode"""
+    return _haz_stv(case) | _may_refuse_blt(case)
+
+
 def _oracle_stv_rt(case, obs):
     if obs['dump'] != 'ok':
-        if obs['dump']['err'] == 'NotSupportedInFormat' and _haz_stv(case):
+        if obs['dump']['err'] == 'NotSupportedInFormat' and _may_refuse_stv(case):
             return []
         return [('dump_raises', obs['dump']['exc'])]
     if _is_err(obs['loaded']):
@@ -1007,8 +1037,10 @@ def _oracle_stv_rt(case, obs):
 
 
 def _model_stv_rt(case):
-    if case.get('sys') is None:
-        return None                      # BLT mode: the content is the BLT model's business (blt_rt)
+    if case.get('sys') is None:          # BLT mode: method=blt, ballots=blt, then the BLT writer without a title
+        m = _model_blt_rt(case)
+        m['op'] = 'stv_dump_blt'
+        return m
     d, sysd = case['doc'], case['sys']
     tree = {'tv': [True, True, True], 'quota': sysd.get('quota', 'droop'), 'mandatory': bool(sysd.get('mandatory'))}
     rnd = sysd.get('random')
@@ -1054,6 +1086,17 @@ def _compare_stv_rt(case, iobs, mobs):
     hdr = [h for h in tk[0] if h is not None]
     if hdr != mobs['hdr']:
         return f"header lines: impl={json.dumps(hdr)[:300]} model={json.dumps(mobs['hdr'])[:300]}"
+    if case.get('sys') is None:
+        lines = IO.stv_blt_rest(iobs['text'])
+        if lines is None:
+            return None
+        if lines and lines[-1] is None:
+            lines = lines[:-1]
+        if lines != mobs['lines']:
+            return f"BLT lines: impl={json.dumps(lines)[:300]} model={json.dumps(mobs['lines'])[:300]}"
+        if mobs.get('wf') and _oracle_stv_rt(case, iobs):
+            return 'the document meets WFdoc (hypothesis of stv_blt_mode_roundtrip) but the implementation does not round-trip it'
+        return _cmp_loaded(_stv_section(iobs['loaded']), mobs['loaded'])
     if _strip_trailing_blank(tk[1]) != mobs['votes']:
         return f"ballot lines: impl={json.dumps(tk[1])[:300]} model={json.dumps(mobs['votes'])[:300]}"
     if mobs.get('wf') and [c for c, _ in _oracle_stv_rt(case, iobs) if c not in ('title_differ', 'seats_differ')]:
@@ -1063,9 +1106,10 @@ def _compare_stv_rt(case, iobs, mobs):
 
 def _model_stv_text(case):
     tk = IO.stv_tokenise(case['text'])
-    if tk is None:
+    blt = IO.stv_blt_rest(case['text'])
+    if tk is None or blt is None:
         return None
-    return {'op': 'stv_load', 'hdr': tk[0], 'votes': tk[1]}
+    return {'op': 'stv_load', 'hdr': tk[0], 'votes': tk[1], 'blt': blt}
 
 
 def _compare_stv_text(case, iobs, mobs):
@@ -1170,7 +1214,7 @@ def _gen_stv_rt(rng, n):
                 t.append('stv_name_no_initials')
             if any(w['k'] == 'dec' and 'E' in w['v'] for _, w in doc['ballots']):
                 t.append('stv_decimal_exponent')
-            if _haz_stv(c):
+            if _may_refuse_stv(c):
                 t.append('stv_writer_must_refuse')
         yield c
 
@@ -1185,6 +1229,8 @@ def _oracle_stv_text(case, obs):
     got = obs['loaded']
     if _is_err(got) and got['err'] not in ('ParseError', 'NotImplementedError'):
         return [('raises_' + got['exc'], 'a text that is not an STV file must raise STVParseError')]
+    if not _is_err(got) and any(i < 0 for b in got['ballots'] for i in b[0]):
+        return [('ballot_candidate_not_listed', 'a returned ballot names a candidate object that is not in the returned candidate list')]
     return []
 
 
@@ -1200,6 +1246,9 @@ STV_HANDMADE = [
     'method=BC\nquota=droop\nquota=hare\nquota=mandatory\nballots=0\nend\n', 'method=BC\nquota=droop\ntitle=a\ntitle=b\nballots=0\nend\n',
     'method=BC\nquota=droop\ncandidate=a A\nballots=1\nzX a\nend\n', 'method=BC\nquota=droop\ncandidate=a A\nballots=1\n1/0X a\nend\n',
     'method=BC\nquota=droop\nseats=x\nballots=0\nend\n', 'method=BC\nquota=droop\nrandom=x\nballots=0\nend\n',
+    # nicknames that differ in case only, a nickname used before it is declared in another case
+    'method=BC\nquota=droop\ncandidate=a Ann\ncandidate=A Bob\nballots=3\na A\n2X A\nA a\nend\n',
+    'method=BC\nquota=droop\ncandidate=ab Ann\nballots=1\nAB\nend\n', 'method=BC\nquota=droop\ncandidate=x Ann\nballots=1\nX\nend\n',
 ]
 STV_HEADER_JUNK = ['foo=bar', 'candidate=a', 'candidate=', 'withdrawn=x', 'seats=1', 'seats=x', 'random=1', 'random=x', 'quota=hare',
                    'quota=mandatory', 'method=BC', 'title=T', 'order=a b', 'order=zz', 'ballots=3', 'ballots=blt', '=', 'x', 'quota=7']
@@ -1215,6 +1264,16 @@ def _gen_stv_text(rng, n):
         for extra in ('', 'quota=mandatory\n', 'seats=2\nrandom=non\ntitle=T\n'):
             yield {'op': 'stv_text', 'text': f'method=BC\nquota={q}\n{extra}candidate=a A\nballots=1\na\nend\n',
                    '_tags': ['stv_text', 'stv_quota_registry'], '_origin': 'quota_registry'}
+    H = 'method=BC\nquota=droop\ncandidate=a A\ncandidate=b B\n'
+    for body in ('ballots=2\n1.5X a\n1/2X a\nend\n', 'ballots=2\n1/2X a\n1.5X a\nend\n', 'ballots=2\n6X a\n0.000000000000000000000000000001X a\nend\n',
+                 'ballots=3\n1/3X a b\n2X a b\na b\nend\n', 'ballots=3\n0.1X b\n0.2X b\n0.3X b\nend\n', 'ballots=2\na\na\nend\n',
+                 'ballots=2\n6.5X a\n0.000000000000000000000000000001X a\nend\n',
+                 'ballots=3\n0.1X b a\n1000000000000000000000000000000.0X b a\n0.2X b a\nend\n'):
+        yield {'op': 'stv_text', 'text': H + body, '_tags': ['stv_text', 'text_repeated_ballot'], '_origin': 'repeated_ballot'}
+    for t in ('method=blt\nballots=blt\n2 1\n6.5 1 0\n1E-30 1 0\n0\n', 'method=BC\nquota=hare\nballots=blt\n2 1\n1.5 2 0\n1/2 2 0\n0\n"A"\n"B"\n'):
+        yield {'op': 'stv_text', 'text': t, '_tags': ['stv_text', 'text_repeated_ballot'], '_origin': 'repeated_ballot'}
+    for t in ('candidate=x Ann\nmethod=blt\nballots=blt\n1 1\n2 1 0\n0\n', 'method=blt\nwithdrawn=x Ann\ncandidate=y Bob\nballots=blt\n2 1\n1 2 1 0\n0\n"A"\n"B"\n'):
+        yield {'op': 'stv_text', 'text': t, '_tags': ['stv_text', 'stv_blt_mode_with_header_candidates'], '_origin': 'blt_header_candidates'}
     for t in ('method=GPCA2000\ncandidate=a A\nballots=1\na\nend\n', 'method=BC\nquota=droop\nseats=-1\nballots=0\nend\n',
               'method=BC\nquota=droop\nseats=\nrandom=\ntitle=\nballots=0\nend\n', 'method=\nquota=droop\nballots=0\nend\n',
               'method=BC\nquota=mandatory\nquota=mandatory\nballots=0\nend\n', 'method=BC\nmethod=BC\nquota=droop\nballots=0\nend\n',
@@ -1223,7 +1282,7 @@ def _gen_stv_text(rng, n):
         yield {'op': 'stv_text', 'text': t, '_tags': ['stv_text', 'stv_header_directed'], '_origin': 'header_directed'}
     plain = [x for x in IO.NAMES_PLAIN if True]
     for k in range(n):
-        doc = IO.gen_doc(rng, names=plain, title='T', weights=('int',), big=False)
+        doc = IO.gen_doc(rng, names=plain, title='T', weights=('int', 'int', 'dec', 'frac'), big=False)
         doc['ballots'] = [b for b in doc['ballots'] if b[0]]
         sysd = None if rng.random() < 0.3 else {'quota': 'droop', 'random': rng.choice([None, 'non', 5]), 'seats': 'fixed', 'wrap': True}
         votes, n_seats, cands, title = IO.build_doc(doc)
@@ -1253,7 +1312,7 @@ MODEL = {'blt_clean': (lambda case: {'op': 'blt_clean', 'line': case['line']}), 
          'stv_rt': _model_stv_rt, 'stv_text': _model_stv_text}
 COMPARE = {'blt_clean': _compare_blt_clean, 'codec': _compare_codec, 'class_rt': _compare_class, 'blt_rt': _compare_blt_rt, 'blt_text': _compare_blt_text,
            'stv_rt': _compare_stv_rt, 'stv_text': _compare_stv_text}
-HAZ = {'blt_text': (lambda case: {'oneplus'} if case.get('oneplus') else set()), 'codec': _haz_codec, 'class_rt': _haz_class, 'blt_rt': _haz_blt, 'stv_rt': _haz_stv}
+HAZ = {'codec': _haz_codec, 'class_rt': _haz_class, 'stv_rt': _haz_stv}
 
 
 def impl(case):
@@ -1435,14 +1494,26 @@ def g_distinct(ps):
     return CC.Gen(None).distinct(ps)
 
 
+def _tag_texts(cases):
+    """coverage tags read off the text: one ballot listed more than once with a Decimal weight among the lines (the readers must add
+    exactly), BLT content inside an STV file"""
+    for c in cases:
+        fmt = c['op'][:3]
+        if IO.repeated_decimal_weight(c['text'], fmt):
+            c['_tags'].append(fmt + '_text_repeated_decimal_weight')
+        if fmt == 'stv' and IO.stv_blt_rest(c['text']):
+            c['_tags'].append('stv_text_blt_content')
+        yield c
+
+
 def generate(rng, tier):
     q = tier == 'quick'
     yield from _gen_codec(rng, 3000 if q else 40000)
     yield from _gen_blt_rt(rng, 2500 if q else 30000)
     yield from _gen_blt_clean(rng, 1500 if q else 20000)
-    yield from _gen_blt_text(rng, 3000 if q else 40000)
+    yield from _tag_texts(_gen_blt_text(rng, 3000 if q else 40000))
     yield from _gen_stv_rt(rng, 2000 if q else 25000)
-    yield from _gen_stv_text(rng, 2000 if q else 25000)
+    yield from _tag_texts(_gen_stv_text(rng, 2000 if q else 25000))
     yield from _gen_class(rng, 1400 if q else 12000, 120 if q else 1500)
     if not q:
         yield from _exhaustive_blt()
@@ -1452,13 +1523,18 @@ def generate(rng, tier):
 TECHNIQUE = 'Lean 4 proofs about a model of the dict codec and of the BLT writer/parser + differential correspondence with votelib + round-trip oracle over all classes carrying to_dict'
 LEVEL_TEXT = ('The dict codec of persist.py (serialize_value / deserialize_value / from_dict), the BLT writer and parser and the candidate/ballot '
               'section of the STV format are modelled branch by branch in Lean (token level for the file formats), following the repaired code '
-              '(722783a, 1c4ee21, b98eeeb). Proved for all inputs: every in-memory value is either refused at save or written to a dictionary that '
+              '(722783a, 1c4ee21, b98eeeb, a89c3f1..d56e55e, 7f49a3e, 6e1811c, 134a849, f06b201). Proved for all inputs: every in-memory value is either refused at save or written to a dictionary that '
               'reloads to the same value (codec_save_or_faithful; which of the two is decided by Serializable), also through to_dict/from_dict and with '
-              'an identical re-serialisation; every well-formed BLT document reloads unchanged (blt_roundtrip: seats, names, any withdrawn subset, '
-              'int/Decimal/Fraction weights, title); on ANY token lines the BLT parser returns a document or raises the parse error '
-              '(blt_parse_total) and a returned document names listed candidates only (blt_loaded_indices_valid); STV nicknames never collide and '
-              'a whole STV file (system header, candidates, ballots incl. empty ones, Decimal weights, title None) round-trips (Stv.stv_roundtrip) and '
-              'the STV reader raises only STVParseError / NotImplementedError on any token lines (Stv.stv_parse_total). '
+              'an identical re-serialisation; EVERY election handed to the BLT writer is either refused with NotSupportedInBLT (exactly when a ballot '
+              'has a negative weight or names an unlisted candidate: blt_dump_refuses_iff) or written to lines that reload to the same election '
+              '(blt_save_or_faithful / blt_roundtrip: seats, names, any withdrawn subset, int/Decimal/Fraction weights, title); on ANY token lines, '
+              'with either setting of oneplus_weights, the BLT parser returns a document or raises the parse error (blt_parse_total), a returned '
+              'document names listed candidates only (blt_loaded_indices_valid) and a ballot listed twice counts with the exact sum '
+              '(blt_repeated_ballot_exact); STV nicknames never collide, a whole STV file (system header, candidates, ballots incl. empty ones, '
+              'Decimal weights, title None) round-trips in the own format (Stv.stv_roundtrip) and in BLT mode (Stv.stv_blt_mode_roundtrip), the STV '
+              'writer raises NotSupportedInSTV for every negative weight (Stv.stv_dump_refuses_negative), the STV reader — own format and BLT '
+              'content — raises only STVParseError / NotImplementedError on any token lines (Stv.stv_parse_total) and returns ballots for '
+              'candidates of the returned list only (Stv.stv_loaded_indices_valid). '
               'All 109 classes carrying to_dict, the STV system header and text lexing are covered by the differential correspondence and a direct '
               'round-trip / outcome / exception-type oracle on every run.')
 LEVEL_NOTE = ('Trusted: Lean kernel + propext/Classical.choice/Quot.sound; the correspondence harness (generators, tokeniser, canonicalisation); '
